@@ -46,6 +46,8 @@ type sEvent struct {
 	Sync   bool   `json:"sync"`
 	Target uint32 `json:"target"`
 	Done   bool   `json:"done"`
+	// timed behaviours (spec/MC_Dyn.tla): tolerance of the C16 gap formulas (absent: one block time, i.e. not checked)
+	DelayMax *int64 `json:"delayMax"`
 }
 
 // fixedNonce makes the library draw exactly the nonce the specification chose.
@@ -58,6 +60,13 @@ func (f *fixedNonce) Read(b []byte) (int, error) {
 		b[i] = x[i%8]
 	}
 	return len(b), nil
+}
+
+func delayMaxOf(e sEvent) int64 {
+	if e.DelayMax != nil {
+		return *e.DelayMax
+	}
+	return e.Cfg.Tpb
 }
 
 func fromRec(r PRec) *Payload {
@@ -157,7 +166,7 @@ func runScript(out *TraceWriter, path string, from, runs int) {
 		}
 		out.Write(RunStart{Call: "RunStart", Run: run, Seed: 0, Driver: "script", Nodes: ids, Faulty: faulty, Sync: evs[0].Sync,
 			Params: map[string]any{"events": len(evs), "n0": evs[0].Env.Ledger.NVals, "myIndex": evs[0].Env.Ledger.MyIndex,
-				"h0": evs[0].Env.Ledger.Height, "tpb": evs[0].Cfg.Tpb, "maxTpb": evs[0].Cfg.MaxTpb, "delayMax": evs[0].Cfg.Tpb}})
+				"h0": evs[0].Env.Ledger.Height, "tpb": evs[0].Cfg.Tpb, "maxTpb": evs[0].Cfg.MaxTpb, "delayMax": delayMaxOf(evs[0])}})
 		for _, e := range evs {
 			c.Clk.Now = e.Env.Now
 			id := 500
